@@ -103,7 +103,7 @@ class Prop:
             for g in mut.gen_exhaustive(3, typed=(True,)):
                 for i in range(0, len(g["alts"]), CHUNK):
                     yield dict(kind="alts", univ=g["univ"], setup=g["setup"], alts=g["alts"][i:i + CHUNK], label=g["label"] + "/typed")
-        nrand = 30 if quick else 600
+        nrand = 30 if quick else 450
         for i in range(nrand):
             n_ops = rng.randint(8, 25 if quick else 40)
             h = (mut.gen_malformed if i % 3 == 2 else mut.gen_random)(rng, n_ops)
